@@ -44,6 +44,13 @@ def space(rep, m, r_):
 def protocol(rep, quick):
     rnd = random.Random("c02-%d" % seed())
     sp = space(rep, 499 if quick else 41, seed() % 41)
+    # a truncated file makes the library generate everything again (~1 min): few of those in the quick tier
+    def costly(q):
+        return any(o.startswith("trunc_") for o in q)
+    trunc_all = [q for q in sp["seq2"] + list(sp["seq3"]) if costly(q) and q[-1].startswith("undill")]
+    rnd.shuffle(trunc_all)
+    for key in ("seq1", "seq2", "seq3", "seq5"):
+        sp[key] = [q for q in sp[key] if not costly(q)]
     s3 = list(sp["seq3"])
     s5 = list(sp["seq5"])
     rnd.shuffle(s3)
@@ -53,6 +60,7 @@ def protocol(rep, quick):
     seqs = [s for s in sp["seq1"] if s[-1].startswith("undill")] + [s for s in ends_load if len(s) == 2]
     seqs += [s for s in ends_load if len(s) == 3][:(24 if quick else 10000)]
     seqs += s5[:(10 if quick else 10000)]
+    seqs += [["trunc_funcs", "undill_noauto"], ["edit_iter", "trunc_lists", "undill_auto"]] + (trunc_all[:60] if not quick else [])
     # a load after every step of a long history (every prefix observed)
     seqs += [["edit_e", "undill_noauto", "undill_auto", "edit_iter", "undill_noauto", "undill_auto", "edit_svc", "undill_auto",
               "edit_v", "undill_noauto", "prepare", "undill_noauto", "corrupt", "undill_auto", "prepare", "undill_auto",
